@@ -106,12 +106,166 @@ def heap_order(run, funcs):
     run.prove('C17 heap order: total on real distances', [], z3.Not(z3.Or(cov)), timeout=10, cross=False)
 
 
+def iterator_next(run, funcs):
+    """The loop of `RTreeWrappingNearestNeighbourIter::next` on a harness heap (pop order given, nodes symbolic): every popped leaf is
+    returned - exactly once, with its own distance and shift, also when the same generator is popped again through another image -,
+    a popped inner node only extends the heap with its own shift, an empty heap ends the iteration."""
+    from mirsym.interp import UNIT, Unsupported
+    from .common import none, some
+    W = 'src/rtree_nn.rs'
+    gid1, gid2 = z3.Int('gid1'), z3.Int('gid2')
+    g1 = engine.make_struct('src/voronoi/generator.rs', 'Generator', loc=rvec('g1'), id=gid1)
+    g2 = engine.make_struct('src/voronoi/generator.rs', 'Generator', loc=rvec('g2'), id=gid2)
+    ds = [z3.Real('hd%d' % k) for k in range(4)]
+    shs = [Agg('array', [z3.Real('hs%d_%d' % (k, c)) for c in range(3)]) for k in range(4)]
+    st = State()
+    st.heap[11] = Var('Leaf', (g1,), 'RTreeNode')
+    st.heap[12] = Var('Parent', (Opaque('parent_node'),), 'RTreeNode')
+    st.heap[13] = Var('Leaf', (g1,), 'RTreeNode')         # the same generator again (another periodic image)
+    st.heap[14] = Var('Leaf', (g2,), 'RTreeNode')
+    mk = lambda k: engine.make_struct(W, 'RTreeNodeDistanceWrapper', node=Ref(('H', 11 + k)), distance=ds[k], shift=shs[k])
+    fields = engine.struct_fields(W, 'RTreeWrappingNearestNeighbourIter')
+    extra = {f: Opaque(f) for f in fields if f not in ('nodes', 'query_point')}
+    if extra:
+        # a field the pinned iterator does not have (e.g. a set of visited ids): its operations are outside the model table, the encoding aborts
+        pass
+    it = engine.make_struct(W, 'RTreeWrappingNearestNeighbourIter', nodes=Agg('Vec', [mk(k) for k in range(4)]), query_point=Agg('array', [z3.Real('qp%d' % k) for k in range(3)]), **extra)
+    st.heap[1] = it
+    st.pc.extend([ds[0] <= ds[1], ds[1] <= ds[2], ds[2] <= ds[3]])
+
+    def pop(i, s, a, c):
+        v = i.deref_read(s, a[0])
+        items = list(v.items)
+        if not items:
+            return none()
+        i.deref_write(s, a[0], Agg(v.tag, items[1:]))
+        return some(items[0])
+
+    def extend_heap(i, s, a, c):
+        s.events.append(('extend', a[1], a[2]))
+        return UNIT
+
+    ov = {'BinaryHeap::pop': pop, 'ParentNode::children': lambda i, s, a, c: Opaque('children'),
+          'RTreeWrappingNearestNeighbourIter::extend_heap': extend_heap}
+    name = engine.find_fn_where(funcs, r'rtree_nn::<impl at [^>]*>::next$', 'RTreeWrappingNearestNeighbourIter')
+    interp = engine.new_interp(funcs, overrides=ov, enum_discr={'Leaf': 0, 'Parent': 1})
+    want = [(0, 11), (2, 13), (3, 14), None]
+    states = [st]
+    ok = True
+    why = ''
+    for call_no, w in enumerate(want):
+        nxt = []
+        for s in states:
+            outs = interp.exec_fn(s, name, [Ref(('H', 1))], {})
+            for s2, v in outs:
+                if w is None:
+                    if v.name != 'None':
+                        ok, why = False, 'call %d returns a candidate from an empty heap' % (call_no + 1)
+                    continue
+                k, cell = w
+                if v.name != 'Some':
+                    ok, why = False, 'call %d: a popped leaf is not returned (the iterator ends or skips it)' % (call_no + 1)
+                    continue
+                t, dist, sh = v.items[0].items
+                same_ref = isinstance(t, Ref) and t.base == ('H', cell)
+                if not same_ref:
+                    ok, why = False, 'call %d returns %r instead of the popped leaf' % (call_no + 1, t)
+                    continue
+                vv, m = run.prove('C17 iterator next, call %d: the popped leaf is returned with its own distance and shift' % (call_no + 1), hyps_of(s2),
+                                  z3.Not(z3.And([to_z3(dist) == ds[k]] + [to_z3(x) == to_z3(y) for x, y in zip(sh.items, shs[k].items)])), timeout=20, cross=False)
+                nxt.append(s2)
+        states = nxt
+        if not states and w is not None:
+            ok, why = False, why or 'call %d has no normal path' % (call_no + 1)
+            break
+    ext = [e for s in states for e in s.events if e[0] == 'extend']
+    if ok and (len(ext) != len(states) or any(not all(x is y for x, y in zip(e[2].items, shs[1].items)) for e in ext)):
+        ok, why = False, 'an inner node must extend the heap exactly once, with its own shift'
+    run.add_functions(interp, funcs)
+    run.obligations.append({'name': 'C17 iterator next on a harness heap [leaf g1, inner node, leaf g1 (other image), leaf g2]: every popped leaf is returned once, in pop order; '
+                                    'the inner node extends the heap with its shift; then None', 'expect': 'unsat', 'verdict': 'unsat' if ok else 'sat',
+                            'solver': 'path enumeration of the MIR + structural comparison', 'solver_s': 0.0, 'detail': why})
+    if not ok:
+        bad = nn_native_battery(run.seed)
+        if bad:
+            run.violation('C17 iterator next: %s; native visit sequence: %s' % (why, bad[0]), engine.save_replay('C17', bad[1]))
+        else:
+            run.suspect.append('C17 iterator next: %s (native visit sequences show no difference)' % why)
+
+
+def nn_scenarios(seed=0):
+    import random
+    rng = random.Random(4242 + seed)
+    out = []
+    for dim, d in (('OneD', 1), ('TwoD', 2), ('ThreeD', 3)):
+        for per in (False, True):
+            for n in (1, 2, 3, 7, 12):
+                width = [1.0, 1.25, 0.75]
+                gens = [[rng.random() * width[0], rng.random() * width[1] if d >= 2 else 0.0, rng.random() * width[2] if d >= 3 else 0.0] for _ in range(n)]
+                out.append({'kind': 'nn_visit', 'dim': dim, 'periodic': per, 'width': width, 'gens': gens, 'query': rng.randrange(n)})
+    return out
+
+
+def check_nn_visit_native(p, profile='debug'):
+    """the statement of C17 on a real visit sequence: starts with the query generator itself (no shift), non-decreasing distance, every other
+    generator exactly once - with periodic boundaries each of the 3^d images exactly once, shift absent iff zero"""
+    dim, per, width, gens, qi = p['dim'], p['periodic'], p['width'], p['gens'], p['query']
+    d = {'OneD': 1, 'TwoD': 2, 'ThreeD': 3}[dim]
+    nimg = 3 ** d if per else 1
+    total = len(gens) * nimg
+    seq = nnrules.native_nn_sequence(dim, per, width, gens[qi], gens, total + 5, profile)
+    if seq is None:
+        return 'native visit sequence panicked'
+    if not seq or seq[0] != (qi, None):
+        return 'first candidate is %r, expected the query generator %d itself without shift' % (seq[:1], qi)
+    if len(seq) != total:
+        return '%d candidates visited, expected %d (= %d generators x %d images)' % (len(seq), total, len(gens), nimg)
+    seen = set()
+    last = -1.0
+    q = gens[qi]
+    for gid, sh in seq:
+        if sh is not None and all(x == 0.0 for x in sh):
+            return 'zero shift reported as present'
+        s = sh or (0.0, 0.0, 0.0)
+        for a in range(3):
+            if not (s[a] == 0.0 or (per and a < d and abs(abs(s[a]) - width[a]) < 1e-12)):
+                return 'shift %r is not a lattice vector' % (s,)
+        key = (gid, tuple(round(x / w) for x, w in zip(s, width)))
+        if key in seen:
+            return 'candidate %r visited twice' % (key,)
+        seen.add(key)
+        dist = sum((gens[gid][a] + s[a] - q[a]) ** 2 for a in range(3))
+        if dist < last * (1 - 1e-12) - 1e-300:
+            return 'candidates are not visited in non-decreasing distance (%.12g after %.12g)' % (dist, last)
+        last = max(last, dist)
+    return None
+
+
+def nn_native_battery(seed=0):
+    for prof in ('debug', 'release'):
+        for sc in nn_scenarios(seed):
+            bad = check_nn_visit_native(sc, prof)
+            if bad:
+                return '%s [%s build, %s, periodic=%s, %d generators]' % (bad, prof, sc['dim'], sc['periodic'], len(sc['gens'])), sc
+    return None
+
+
 def check(run):
     funcs, info = engine.load_mir('ibig')
     run.mir_info.append(info)
     leaf_and_envelope(run, funcs)
     heap_order(run, funcs)
     nnrules.shift_reciprocity(run, funcs, 'C17')
+    try:
+        iterator_next(run, funcs)
+    except (engine.Inconclusive, __import__('mirsym.interp').interp.Unsupported) as e:
+        # the loop could not be encoded for this tree (construct outside the model table): no solver verdict on it; the statement of C17 is
+        # evaluated on real visit sequences - a violation observed there is real, observing nothing leaves the run inconclusive
+        bad = nn_native_battery(run.seed)
+        if bad:
+            run.violation('C17 iterator next not encodable (%s); native visit sequence: %s' % (str(e)[:120], bad[0]), engine.save_replay('C17', bad[1]))
+        else:
+            run.inconclusive.append('C17 iterator next: %s' % str(e)[:300])
     run.assume('rstar (bulk load, node envelopes contain their children, nearest_neighbor_iter) is trusted third-party code: not encoded')
     run.assume('ordering among exactly equal distances and ulp-level rounding of distances: outside the claim')
     return run.finish(LEVEL, EXPLANATION, trusted=['rustc -Zunpretty=mir', 'z3 5.1.0 / 4.8.12, cvc5 1.0.3', 'rstar', 'std BinaryHeap'])
@@ -123,6 +277,8 @@ def replay(path):
         bad = check_leaf_native(d)
     elif d['kind'] == 'envelope_distance':
         bad = check_env_native(d)
+    elif d['kind'] == 'nn_visit':
+        bad = check_nn_visit_native(d)
     else:
         return nnrules.replay(d)
     print(bad)
